@@ -143,3 +143,134 @@ fn c11_write_contract() {
     kani::cover!(g0 == 65534, "C11.cover.start_65534");
     kani::cover!(g0 == 0, "C11.cover.start_0");
 }
+
+// =================================================================================================
+// C16: layout constants of the writer, and write -> fresh reader round trip
+// =================================================================================================
+#[kani::proof]
+fn c16_segment_size() {
+    let n = ShmWriter::segment_size();
+    kani::assert(n == 72, "C16.size.segment_is_72_bytes");
+    kani::assert(n >= size_of::<ShmHeader>() + size_of::<ClockErrorBound>(), "C16.size.covers_header_and_record");
+    kani::assert(n % 8 == 0, "C16.size.multiple_of_8");
+    kani::assert(size_of::<Seg>() == 72, "C17.layout.header_plus_record_is_72");
+    kani::cover!(true, "C16.cover.size_end");
+}
+
+/// Whatever the segment contained (any generation, odd or even, any record), after one `write` a
+/// reader that attaches afresh (empty cache, cached generation 0) obtains exactly the record that
+/// was published.  Uses the real write and the real snapshot on the same memory.
+#[kani::proof]
+#[kani::unwind(2)]
+fn c16_write_then_fresh_snapshot_roundtrip() {
+    let mut seg = any_seg();
+    seg.hdr.version.store(1, Ordering::Relaxed); // ShmWriter::new stores version 1 (C04.new.*)
+    let new = any_ceb();
+    let mut w = writer_over(&mut seg);
+    w.write(&new);
+    std::mem::forget(w);
+    let base: *mut Seg = &mut seg;
+    let mut r = crate::reader::verif_read::reader_at(base.cast(), ClockErrorBound::default(), 0);
+    let got = match r.snapshot() {
+        Ok(c) => Some(*c),
+        Err(_) => None,
+    };
+    kani::assert(got.is_some(), "C16.roundtrip.snapshot_succeeds");
+    kani::assert(ceb_eq(&got.unwrap(), &new), "C16.roundtrip.reads_back_exactly_what_was_published");
+    std::mem::forget(r);
+    kani::cover!(true, "C16.cover.roundtrip_end");
+}
+
+// =================================================================================================
+// C04: ShmWriter::new -- in-place takeover of a usable segment, wipe of an unusable one.
+// is_usable_segment / wipe / mmap_segment_at are file-system code that neither tool can execute;
+// they are replaced by contract stubs with ghost flags (ASSUMED contracts, listed in the evidence):
+//   is_usable_segment: Ok iff a ShmReader can open the file (proved separately: C16.open.*)
+//   wipe:              re-creates the file as magic, size, version 0, generation 0, zero record
+//   mmap_segment_at:   maps the file MAP_SHARED (aliases the same bytes readers have mapped)
+// =================================================================================================
+static mut PROBE_OK: bool = false;
+static mut WIPE_FAILS: bool = false;
+static mut WIPE_CALLS: u32 = 0;
+static mut MMAP_CALLS: u32 = 0;
+static mut WIPE_SEGSIZE: usize = 0;
+static mut THE_SEG: *mut Seg = std::ptr::null_mut();
+
+fn stub_is_usable_segment(_path: &Path) -> Result<(), ShmError> {
+    if unsafe { PROBE_OK } { Ok(()) } else { Err(ShmError::SegmentNotInitialized) }
+}
+
+fn stub_wipe(_path: &Path, segsize: usize) -> std::io::Result<()> {
+    unsafe {
+        WIPE_CALLS += 1;
+        WIPE_SEGSIZE = segsize;
+        if WIPE_FAILS {
+            return Err(Error::new(ErrorKind::Other, "wipe failed"));
+        }
+        let s = &mut *THE_SEG;
+        s.hdr.magic = SHM_MAGIC;
+        s.hdr.segsize.store(segsize as u32, Ordering::Relaxed);
+        s.hdr.version.store(0, Ordering::Relaxed);
+        s.hdr.generation.store(0, Ordering::Relaxed);
+        s.ceb = ClockErrorBound::default();
+    }
+    Ok(())
+}
+
+fn stub_mmap_segment_at(_path: &Path, _segsize: usize) -> std::io::Result<*mut c_void> {
+    unsafe {
+        MMAP_CALLS += 1;
+        Ok(THE_SEG.cast())
+    }
+}
+
+#[kani::proof]
+#[kani::stub(ShmWriter::is_usable_segment, stub_is_usable_segment)]
+#[kani::stub(ShmWriter::wipe, stub_wipe)]
+#[kani::stub(ShmWriter::mmap_segment_at, stub_mmap_segment_at)]
+fn c04_new_takeover_or_wipe() {
+    let mut seg = any_seg();
+    let g0 = seg.hdr.generation.load(Ordering::Relaxed);
+    let (m0, m1) = (seg.hdr.magic[0], seg.hdr.magic[1]);
+    let size0 = seg.hdr.segsize.load(Ordering::Relaxed);
+    let rec0 = seg.ceb;
+    let probe_ok: bool = kani::any();
+    let wipe_fails: bool = kani::any();
+    unsafe {
+        THE_SEG = &mut seg;
+        PROBE_OK = probe_ok;
+        WIPE_FAILS = wipe_fails;
+    }
+    let r = ShmWriter::new(Path::new("/p"));
+    let wipes = unsafe { WIPE_CALLS };
+    kani::assert((wipes == 1) == !probe_ok && wipes <= 1, "C04.new.wipe_iff_probe_failed");
+    if wipes == 1 {
+        kani::assert(unsafe { WIPE_SEGSIZE } == 72, "C16.new.recreated_file_is_72_bytes");
+    }
+    match r {
+        Ok(w) => {
+            let base: *mut u8 = (&mut seg as *mut Seg).cast();
+            kani::assert(w.version as *mut u8 == unsafe { base.add(12) }, "C04.new.version_pointer_at_12");
+            kani::assert(w.generation as *mut u8 == unsafe { base.add(14) }, "C04.new.generation_pointer_at_14");
+            kani::assert(w.ceb as *mut u8 == unsafe { base.add(16) }, "C04.new.record_pointer_at_16");
+            kani::assert(w.segsize == 72, "C04.new.maps_72_bytes");
+            std::mem::forget(w);
+            kani::assert(seg.hdr.version.load(Ordering::Relaxed) == 1, "C04.new.version_1_published");
+            if probe_ok {
+                // valid segment: taken over in place, never emptied or re-created
+                kani::assert(seg.hdr.generation.load(Ordering::Relaxed) == g0, "C04.new.takeover_keeps_generation");
+                kani::assert(ceb_eq(&seg.ceb, &rec0), "C04.new.takeover_keeps_record");
+                kani::assert(seg.hdr.magic[0] == m0 && seg.hdr.magic[1] == m1 && seg.hdr.segsize.load(Ordering::Relaxed) == size0,
+                             "C04.new.takeover_keeps_magic_and_size");
+            } else {
+                // unusable segment: repaired; not readable by new clients until the first publication
+                kani::assert(seg.hdr.generation.load(Ordering::Relaxed) == 0, "C04.new.after_wipe_generation_0_until_first_write");
+            }
+        }
+        Err(_) => {
+            kani::assert(!probe_ok && wipe_fails, "C04.new.fails_only_if_repair_fails");
+        }
+    }
+    kani::cover!(probe_ok, "C04.cover.takeover");
+    kani::cover!(!probe_ok && !wipe_fails, "C04.cover.wipe");
+}
